@@ -1514,7 +1514,7 @@ def worker_plan(pid, theorems, rule_extra):
     fsreal = pid == "C01"
     return dict(modules=["Wx.Glob.Throttle", "Wx.Glob.ThrottleRun"] + (["Wx.Fs.Source", "Wx.Kb.Thm"] if fsreal else []),
                 theorems=theorems + (["Fsrc.rejected_never_ok", "Fsrc.outside_never_ok", "Fsrc.missing_is_flagged",
-                                      "Kb.eof_never_lost", "Kb.eof_exactly_once", "Kb.delivered_le_enables", "Kb.disabled_delivers_nothing", "Kb.inv_run"] if fsreal else []),
+                                      "Kb.eof_never_lost", "Kb.eof_exactly_once", "Kb.delivered_le_enables", "Kb.disabled_delivers_nothing", "Kb.inv_run", "Kb.spawned_eq_edges", "Kb.delivered_le_edges"] if fsreal else []),
                 bins=[("lib", ["wxthrottle"] + (["wxfsreal", "wxkbd"] if fsreal else []))],
                 streams=(lambda ctx: [worker_stream(pid, ctx), fs_real_stream(pid, ctx), kbd_stream(pid, ctx)]) if fsreal else (lambda ctx: [worker_stream(pid, ctx)]),
                 sources=["crates/lib/src/action/worker.rs", "crates/lib/src/watchexec.rs", "crates/lib/src/filter.rs", "crates/events/src/event.rs"] + (["crates/lib/src/sources/fs.rs", "crates/lib/src/sources/keyboard.rs", "crates/lib/src/config.rs"] if fsreal else []),
@@ -1724,6 +1724,60 @@ def c08_streams(ctx):
               "'script; GracefulStop; Stop; Delete' (abort: script, then every live child's handle dropped), and main must finish exactly when the slowest job's task ends")
     return [s]
 
+def registry_stream(pid, ctx):
+    """the action worker's job registry, the handler's create / get-or-create / get calls and Id::default() on several OS threads, on a real
+    Watchexec instance with real processes; then a graceful quit: which processes survive, does the main task return"""
+    r = random.Random(ctx["seed"] * 97 + 19)
+    s = core.StreamResult("registry")
+    d = core.WORK / pid / "registry"; d.mkdir(parents=True, exist_ok=True)
+    cases = core.corpus("registry") + ["rf0 all m0;g0;g0", "rf1 all c0;c1;m1;g2|g0;g2;q1/1|q1;c0", "rf2 all c0;c2;c3|m1;m2;g3;g4|q0;q1", "rf3 all m1|m2|g0;g1|m0;g2;g2;g0",
+                                        "rf4 all c1;c1;c2|c0;c0", "rf5 all m1;m2;m3;m1;m2;m3;g0;g1;g2;g3;g4;g5"]
+    for i in range(90 if ctx["thorough"] else 26):
+        acts = []; nids = 0; njobs = 0
+        for _ in range(r.randint(1, 4)):
+            ops = []
+            for _ in range(r.randint(1, 5)):
+                x = r.random()
+                if x < 0.25: ops.append(f"c{r.randrange(4)}"); nids += 1; njobs += 1
+                elif x < 0.5: ops.append(f"m{r.randrange(4)}"); nids += 1
+                elif x < 0.85 and nids: ops.append(f"g{r.randrange(nids)}"); njobs += 1
+                elif nids: ops.append(f"q{r.randrange(nids)}")
+            kills = [str(r.randrange(njobs))] if njobs and r.random() < 0.2 else []
+            acts.append(";".join(ops) + ("/" + ",".join(kills) if kills else ""))
+        cases.append(f"rg{i} all {'|'.join(acts)}")
+    impl, culprits, fatal = core.run_chunks("wxreg", cases, 12, 600 if ctx["thorough"] else 240)
+    if fatal: s.error = fatal; return s
+    for c, why in culprits: s.oracle_failures.append((cases.index(c), c, "", f"no answer on this registry script: {why}"))
+    cases = [c for c in cases if c in impl]
+    (d / "cases.txt").write_text("\n".join(cases) + "\n"); (d / "impl.txt").write_text("\n".join(impl[c] for c in cases) + "\n")
+    ok, err = core.run_driver(["reg"], d / "cases.txt", d / "model.txt")
+    if not ok: s.error = "wxdriver reg failed: " + err[-600:]; return s
+    model = core.read_lines(d / "model.txt")
+    s.evaluations = len(cases)
+    for i, (c, mo) in enumerate(zip(cases, model)):
+        o = impl[c]
+        f = dict(x.split("=", 1) for x in o.split(" ")[1:]); g = dict(x.split("=", 1) for x in mo.split(" ")[1:])
+        # a handle to a job that has ended cannot say which job it is (`e?`): any existing job is accepted there
+        fo, go = f["out"].split(","), g["out"].split(",")
+        same_out = len(fo) == len(go) and all(a == b or (a == "e?" and b.startswith("e")) for a, b in zip(fo, go))
+        if not (same_out and f["leaked"] == g["leaked"] and f["main"] == g["main"]): s.disagreements.append((i, c, o, mo))
+        what = None
+        if f["main"] != "ok": what = "graceful quit (grace 300 ms, commands that exit on the signal): the main task had not finished 3 s later — it waits for a job task that the quit never stopped"
+        elif f["leaked"]: what = f"after the graceful quit and the end of the main task the process(es) of job(s) {f['leaked']} (numbered by creation) are still running: the job was started by an action but is not in the worker's registry, so the quit never reached it"
+        if what: s.oracle_failures.append((i, c, o, what))
+        s.bump("jobs created", sum(1 for x in fo if x.startswith("n"))); s.bump("existing job returned", sum(1 for x in fo if x.startswith("e")))
+        for a in c.split(" ")[2].split("|"):
+            ops = a.split("/")[0].split(";")
+            if len({x for x in ops if x.startswith("g")}) < len([x for x in ops if x.startswith("g")]): s.bump("same id asked for twice in one action")
+            if "/" in a: s.bump("deletion between actions")
+        if sum(1 for x in fo if x.startswith("n")) >= 2: s.nontrivial.add(hashlib.md5((c.split(" ", 1)[1] + o).encode()).digest()[:8])
+        if i % max(1, len(cases) // 3) == 0 and len(s.samples) < 3: s.samples.append({"case": c, "impl": o, "model": mo})
+    s.note = ("a real Watchexec instance (multi-thread runtime) whose action handler calls create_job (on its own and on other OS threads), Id::default() (own thread, persistent helper "
+              "threads), get_or_create_job and get_job with the ids it holds, keeps every handle, deletes jobs between actions; each job runs a real `sleep`; then a graceful quit: the "
+              "model (Rg) predicts what every call returns (new job / which existing job / nothing), which processes survive and whether the main task returns")
+    return s
+
+
 def c08_real(ctx):
     s = core.StreamResult("quit-real")
     reps = 3 if ctx["thorough"] else 1
@@ -1742,12 +1796,12 @@ def c08_real(ctx):
     return s
 
 PLANS["C08"] = dict(
-    modules=["Wx.Job.C08", "Wx.Job.C08b", "Wx.Job.C06", "Wx.Job.C08t", "Wx.Job.C08m", "Wx.Job.SimInduct3", "Wx.Cli.Action", "Wx.Cli.SignalPrioThm"],
+    modules=["Wx.Job.C08", "Wx.Job.C08b", "Wx.Job.C06", "Wx.Job.C08t", "Wx.Job.C08m", "Wx.Job.SimInduct3", "Wx.Cli.Action", "Wx.Cli.SignalPrioThm", "Wx.Reg.Thm"],
     translate=True,
-    theorems=["Wp.interrupt_and_terminate_are_urgent", "Wp.other_signals_are_high", "Wp.only_two_signals_are_singled_out", "Wp.signalPrio_translated", "Jm.c08_main_bound", "Jm.dead_stays_dead", "Ca.first_interrupt_quits_gracefully", "Ca.graceful_quit_sequence", "Ca.other_signals_pass", "Ca.interrupts_escalate", "Ca.unmapped_signals_pass_unchanged", "Ca.mapped_interrupt_does_not_quit", "Ca.translate_one", "Ca.last_mapping_wins", "Ca.keyboard_eof_quits_gracefully", "Ca.keyboard_eof_ignored_without_option", "Jm.c08_quit_bound", "Jm.c08_deadline", "Jm.quit_deadline", "Jm.idle_timer", "Jm.deadline_simInv", "Jm.nextEvent_some", "Jm.nextEvent_none", "Jm.c08_delete_after_stop", "Jm.c08_delete_idle", "Jm.c08_same_script_fixed", "Jm.c08_fails_today", "Jm.timer_fires", "Jm.expiry_kills", "Jm.graceful_stop_step", "Jm.held_back", "Jm.c04"],
-    bins=[("lib", ["wxquit", "wxquitreal"]), ("cli", ["wxcli-main", "wxcliaction"])],
-    streams=lambda ctx: c08_streams(ctx) + [c08_real(ctx), cli_e2e(ctx, "C08")] + c05_streams(ctx, "cli-quit", "C08", cliquit_cases, cliquit_oracle) + c05_streams(ctx, "cli-sigmap", "C08", sigmap_cases, sigmap_oracle),
-    sources=["crates/lib/src/action/worker.rs", "crates/lib/src/watchexec.rs", "crates/lib/src/late_join_set.rs", "crates/supervisor/src/job/task.rs"],
+    theorems=["Wp.interrupt_and_terminate_are_urgent", "Wp.other_signals_are_high", "Wp.only_two_signals_are_singled_out", "Wp.signalPrio_translated", "Jm.c08_main_bound", "Jm.dead_stays_dead", "Ca.first_interrupt_quits_gracefully", "Ca.graceful_quit_sequence", "Ca.other_signals_pass", "Ca.interrupts_escalate", "Ca.unmapped_signals_pass_unchanged", "Ca.mapped_interrupt_does_not_quit", "Ca.translate_one", "Ca.last_mapping_wins", "Ca.keyboard_eof_quits_gracefully", "Ca.keyboard_eof_ignored_without_option", "Rg.no_job_outside_the_registry", "Rg.minted_ids_are_fresh", "Rg.inv_step", "Rg.inv_endAction", "Rg.get_or_create_twice_leaks_today", "Jm.c08_quit_bound", "Jm.c08_deadline", "Jm.quit_deadline", "Jm.idle_timer", "Jm.deadline_simInv", "Jm.nextEvent_some", "Jm.nextEvent_none", "Jm.c08_delete_after_stop", "Jm.c08_delete_idle", "Jm.c08_same_script_fixed", "Jm.c08_fails_today", "Jm.timer_fires", "Jm.expiry_kills", "Jm.graceful_stop_step", "Jm.held_back", "Jm.c04"],
+    bins=[("lib", ["wxquit", "wxquitreal", "wxreg"]), ("cli", ["wxcli-main", "wxcliaction"])],
+    streams=lambda ctx: c08_streams(ctx) + [c08_real(ctx), registry_stream("C08", ctx), cli_e2e(ctx, "C08")] + c05_streams(ctx, "cli-quit", "C08", cliquit_cases, cliquit_oracle) + c05_streams(ctx, "cli-sigmap", "C08", sigmap_cases, sigmap_oracle),
+    sources=["crates/lib/src/action/worker.rs", "crates/lib/src/action/handler.rs", "crates/lib/src/id.rs", "crates/lib/src/watchexec.rs", "crates/lib/src/late_join_set.rs", "crates/supervisor/src/job/task.rs", "crates/cli/src/config.rs"],
     rule="a case is one quit scenario (manner, instant, 1-4 jobs with behaviours and pre-quit controls); non-trivial = the shutdown takes virtual time; distinct by (scenario, observation)",
     assumptions=["the worker's quit branch (one task per job: stop_with_signal, delete().await; join; join job tasks) is a product of per-job runs of the job model read at one common instant (Jm.Finals): job tasks share nothing but the clock; the check driver composes the per-job model runs the same way and compares the real worker with them",
                  "process-wrap KillOnDrop kills a child whose handle is dropped (abort); real process groups are exercised by the quit-real stream only"],
